@@ -15,9 +15,7 @@ static void ghost_sha_setup(const IN_gh1 *g) {
     g_tb_total = g->tb_total; g_tby_k = g->tby_k; g_tby_seen = g->tby_seen; g_tby_val = g->tby_val; g_k1 = g->k1;
     g_last_h[0] = g->last_h[0]; g_last_h[1] = g->last_h[1]; g_last_h[2] = g->last_h[2]; g_last_h[3] = g->last_h[3]; g_last_h[4] = g->last_h[4];
 }
-#if defined(VERIF_SMALL_MSG)                                     /* bounded quick variant: short updates only */
-#define LEN_CASE(ol, len) V_ASSUME((len) <= VERIF_SMALL_MSG)
-#elif defined(VERIF_LEN_FITS) && defined(VERIF_CASE_NOBLOCK)      /* no block completes */
+#if defined(VERIF_LEN_FITS) && defined(VERIF_CASE_NOBLOCK)      /* no block completes */
 #define LEN_CASE(ol, len) V_ASSUME((g_u64)(ol) + (g_u64)(len) < VERIF_BS)
 #elif defined(VERIF_LEN_FITS) && defined(VERIF_CASE_BLOCKS)     /* at least one block completes */
 #define LEN_CASE(ol, len) V_ASSUME((len) <= SHA_MAX_SINGLE_UPDATE && (g_u64)(ol) + (g_u64)(len) >= VERIF_BS)
@@ -41,8 +39,6 @@ void h_sha1_update(void) {
     SHA1_Update(c, m, in.len);
 #ifdef VERIF_LEN_WRAPS
     V_COVER(((in.c.count[0] >> 3) & 63) == 1 && in.len == 0xffffffffu); V_COVER(((in.c.count[0] >> 3) & 63) == 63);
-#elif defined(VERIF_SMALL_MSG)
-    V_COVER(g_tb_total == in.g.tb_total + 1); V_COVER(g_tb_total == in.g.tb_total + 2 && g_tby_seen == in.g.tby_seen + 1); V_COVER(g_tb_total == in.g.tb_total && in.len > 0);
 #elif defined(VERIF_CASE_NOBLOCK)
     V_COVER(g_tb_total == in.g.tb_total && in.len > 0); V_COVER(in.len == 0); V_COVER(c->count[1] == in.c.count[1] + 1);
 #else
